@@ -88,6 +88,7 @@ tells two transactions with the same hash apart -/
 structure Tx where
   hash : Felt
   tag  : Nat
+  kind : Nat := 0   -- transaction type (0 invoke, 1 declare, 2 l1-handler, 3 deploy-account); carried, never inspected
   deriving DecidableEq, Repr, Inhabited
 
 /-- a `core.TransactionReceipt`: the transaction hash it carries, a payload tag, its events -/
@@ -95,6 +96,9 @@ structure Rcpt where
   txHash : Felt
   tag    : Nat
   events : Nat
+  reverted : Bool := false   -- `ExecutionStatus == Reverted`. Carried only: no branch of the adapters or of
+                             -- the storage looks at it — a reverted transaction's state diff (nonce, fee
+                             -- transfer) is merged into the block diff like any other
   deriving DecidableEq, Repr, Inhabited
 
 structure PreConf where
